@@ -11,12 +11,12 @@ CHECKS = {
     technique="TLA+ model checking (TLC) of Decoder.tla + model-generated histories replayed on the real Decoder + TLC trace validation (DecoderTrace.tla)",
     design="5 C11"),
  "C02": dict(
-    text="Assembler.tla (EncodeOperand/EncodeInst: the encoding the SPIR-V specification prescribes) and Parser.tla (ParseInst: the operational grammar) are checked against the real code on conforming instructions generated from the pinned grammar: every one of the 787 opcodes, every enumerant of every enum-kinded operand with its parameters, every mask bit / none / all (pairs at thorough), optional and variadic counts 0..3, OpConstant/OpSpecConstant/OpSwitch under every supported width, OpSpecConstantOp embedding every embeddable opcode, strings of every length mod 4. TLC checks words = EncodeInst(i) AND parsed = i independently, so a compensating pair of bugs is still caught. MC_Parser additionally model-checks, on every word stream of <= 3 (4) words over 12 real first words x 8 operand words, that re-encoding what the operational grammar delivers parses back to the same instructions, and every such stream is parsed by the real parser and validated.",
+    text="Assembler.tla (EncodeOperand/EncodeInst: the encoding the SPIR-V specification prescribes) and Parser.tla (ParseInst: the operational grammar) are checked against the real code on conforming instructions generated from the pinned grammar: every one of the 787 opcodes, every enumerant of every enum-kinded operand with its parameters, every mask bit / none / all (pairs at thorough), optional and variadic counts 0..3, OpConstant/OpSpecConstant/OpSwitch under every supported width, OpSpecConstantOp embedding every embeddable opcode, strings of every length mod 4. TLC checks words = EncodeInst(i) AND parsed = i independently, so a compensating pair of bugs is still caught. MC_Parser additionally model-checks, on every word stream of <= 3 (4) words over 15 real first words (7 opcodes, one per signature shape incl. two optional parameterised masks) x 8 operand words, that re-encoding what the operational grammar delivers parses back to the same instructions, and every such stream is parsed by the real parser and validated.",
     note="Literal values are sampled, not enumerated (they influence no branch except through enumerant tables, which are swept). Conformance of each generated instruction is itself decided by the specification (ParseInst(EncodeInst(i)) = i); a generator slip is a tool error.",
     technique="TLC model checking (MC_Parser: operational grammar vs declarative language, re-encoding) + TLC trace validation (ParserTrace.tla) of assemble/parse behaviours against Assembler.tla and Parser.tla over model-generated streams and grammar-directed inputs",
     design="5 C02"),
  "C03": dict(
-    text="Parser.tla is an operational TLA+ definition of the SPIR-V binary language (header, framing, quantifier loop, enumerant/mask parameters, context-dependent literals, OpSpecConstantOp) with fault classes and the set of error values C03 admits per class. Every real parse of thousands of well-formed random modules and of their single-fault mutants (truncation at any byte, word count, opcode, operand word substitution/insertion/deletion, header faults, extents past the end, trailing bytes, OpSpecConstantOp embedding every opcode number) is validated by TLC: accept/reject, delivered prefix, error class, instruction number and offset interval. MC_Parser model-checks the operational grammar against a DECLARATIVE definition of the language (set of encodings of conforming instructions) on every word stream of <= 3 (4) words over 12 real first words x 8 operand words: accepted iff in the language, delivered = the conforming prefix, fault at the first non-conforming instruction; every such stream is replayed on the real parser. The conforming sweep of C02 (must be accepted) and the tracker histories of C10 (literal widths under late / missing declarations) are validated too.",
+    text="Parser.tla is an operational TLA+ definition of the SPIR-V binary language (header, framing, quantifier loop, enumerant/mask parameters, context-dependent literals, OpSpecConstantOp) with fault classes and the set of error values C03 admits per class. Every real parse of thousands of well-formed random modules and of their single-fault mutants (truncation at any byte, word count, opcode, operand word substitution/insertion/deletion, header faults, extents past the end, trailing bytes, OpSpecConstantOp embedding every opcode number) is validated by TLC: accept/reject, delivered prefix, error class, instruction number and offset interval. MC_Parser model-checks the operational grammar against a DECLARATIVE definition of the language (set of encodings of conforming instructions) on every word stream of <= 3 (4) words over 15 real first words (7 opcodes, one per signature shape incl. two optional parameterised masks) x 8 operand words: accepted iff in the language, delivered = the conforming prefix, fault at the first non-conforming instruction; every such stream is replayed on the real parser. The conforming sweep of C02 (must be accepted) and the tracker histories of C10 (literal widths under late / missing declarations) are validated too.",
     note="Readings of ambiguous sentences are fixed in DESIGN.md 4.6 (each the one that demands less of the code). Grammar facts come from the pinned GrammarData.json.",
     technique="TLC model checking (MC_Parser: operational vs declarative grammar, bounded) + replay of every model stream on the real parser + TLC trace validation (ParserTrace.tla) of real parses against Parser.tla",
     design="5 C03"),
